@@ -2,6 +2,7 @@ pub mod abnf;
 pub mod dfa;
 pub mod domains;
 pub mod pathlist;
+pub mod pathops;
 pub mod selftest;
 pub mod syntax;
 pub mod wmethod;
